@@ -124,10 +124,8 @@ class YAMLStringFormatter(StringFormatter):
 
     def write_start_quote(self, printer: Printer, edit: StringEdit):
         for sub_edit in edit.edit_distance.edits():
-            if isinstance(sub_edit, Match) and '\n' in sub_edit.from_node.object:
-                self.has_newline = True
-                break
-            elif isinstance(sub_edit, Insert) and '\n' in sub_edit.from_node.object:
+            # (the "characters" of a bytes object are integers)
+            if isinstance(sub_edit, (Match, Insert)) and sub_edit.from_node.object in ('\n', ord('\n')):
                 self.has_newline = True
                 break
         else:
@@ -146,7 +144,7 @@ class YAMLStringFormatter(StringFormatter):
 
     def print_StringNode(self, printer: Printer, node: 'StringNode'):
         s = node.object
-        if '\n' in s:
+        if isinstance(s, str) and '\n' in s:
             if printer.context().fore is None:
                 context = printer.color(Fore.CYAN)
             else:
